@@ -1081,6 +1081,7 @@ func (x *Exec) frameWrite(st *State, k string, t *Term) {
 			x.oblige(x.curFr, st, "snapshot", label+"@"+famOfKey(k), pos, And(cs...))
 		}
 	}
+	x.checkWriteRules(st, k, t)
 	if !x.frameOn || st.dry || x.inInit || x.frameOff > 0 {
 		return
 	}
@@ -1151,4 +1152,68 @@ func (x *Exec) reifyPtr(st *State, v Value) Value {
 	out := v
 	out.L = []*Term{id}
 	return out
+}
+
+// checkWriteRules: the `writes` clauses of the function under contract (see WriteRule). Evaluated for every
+// direct heap write (a store at a reference), also in callees executed from their bodies; effects of callees
+// taken by contract are not writes of this function (those callees carry the rule themselves).
+func (x *Exec) checkWriteRules(st *State, k string, t *Term) {
+	if st.dry || x.inInit || x.frameOff > 0 || t == nil || t.Op != "store" || x.curFr == nil || x.top == nil {
+		return
+	}
+	fc := x.contracts[contractKey(x.top)]
+	if fc == nil || len(fc.WriteRules) == 0 {
+		return
+	}
+	ref := t.Args[1]
+	if ref.Op == "const" && strings.HasPrefix(ref.Name, "ref_") {
+		return // allocated during this call
+	}
+	hi, ok := x.heapInfo[k]
+	if !ok {
+		return
+	}
+	rfr := x.curFr.root()
+	for _, wr := range fc.WriteRules {
+		sc := &specScope{x: x, fr: rfr, st: st, old: rfr.entry}
+		T := x.specType(sc, wr.Type)
+		if T == nil {
+			unsup("writes: unknown type %s", wr.Type)
+		}
+		var fam string
+		var it Value
+		switch tt := T.Underlying().(type) {
+		case *types.Pointer:
+			f, _, _ := x.c.famOf(tt.Elem())
+			fam = f
+			it = Value{T: T, L: []*Term{ref}}
+		case *types.Slice:
+			fam = "arr:" + x.c.elemFamName(tt.Elem())
+			it = Value{T: T, L: []*Term{ref, BVLit64(0, 64), BVLit64(0, 64), BVLit64(0, 64)}}
+		default:
+			unsup("writes: %s is neither a pointer nor a slice type", wr.Type)
+		}
+		if hi.fam != fam {
+			continue
+		}
+		path := x.c.leaves(hi.root)[hi.j].Path
+		skip := false
+		for _, e := range wr.Except {
+			if path == "."+e || strings.HasPrefix(path, "."+e+".") {
+				skip = true
+			}
+		}
+		if skip {
+			continue
+		}
+		g := x.evalSpec(sc.with("it", it), wr.Expr)
+		pos := token.NoPos
+		label := "write"
+		if x.curIns != nil {
+			pos = x.curIns.Pos()
+			label = x.src(x.curFr.fn, pos, "write")
+		}
+		a0 := x.c.Named("alloc0", SInt)
+		x.oblige(x.curFr, st, "writes", label+path+":"+wr.Label, pos, Or(IntCmp(">", ref, a0), g.L[0]))
+	}
 }
